@@ -713,8 +713,10 @@ primaryexpr(struct scope *s)
 				error(&tok.loc, "invalid floating constant '%s'", tok.lit);
 			if (!end[0])
 				e->type = &typedouble;
-			else if (tolower(end[0]) == 'f' && !end[1])
+			else if (tolower(end[0]) == 'f' && !end[1]) {
 				e->type = &typefloat;
+				e->u.constant.f = (float)e->u.constant.f;
+			}
 			else if (tolower(end[0]) == 'l' && !end[1])
 				e->type = &typeldouble;
 			else
